@@ -231,6 +231,35 @@ Definition propagate_path (pi : Q) (els : list element) (f : Q) (a : acc) : res 
   Ok (accumulate cs a).
 
 (* ------------------------------------------------------------------------------------------------
+   evaluation aid for the case runner: with a dispersion table beta3 does not depend on the channel, so it
+   is computed once per fibre and shared by all channels (Proofs/Fiber.v: propagate_path_with_sound shows
+   that the result is the one of propagate_path) *)
+Definition beta3_shared (pi : Q) (fib : fiber) : option (res Q) :=
+  match f_disp fib with
+  | DispPerFreq _ => Some (beta3 pi fib 0)
+  | DispScalar _ _ => None
+  end.
+Definition chromatic_dispersion_with (pi : Q) (fib : fiber) (sh : option (res Q)) (f : Q) : res Q :=
+  let* b2 := beta2 pi fib f in
+  let* b3 := match sh with Some r => r | None => beta3 pi fib f end in
+  let beta := b2 + 2 * pi * b3 * (f - f_ref fib) in
+  Ok (- beta * 2 * pi * sq (f_ref fib) / c_light * len_m fib).
+Definition elem_shared (pi : Q) (e : element) : option (res Q) :=
+  match e with EFiber fib => beta3_shared pi fib | _ => None end.
+Definition elem_contrib_with (pi : Q) (e : element) (sh : option (res Q)) (f : Q) : res contrib :=
+  match e with
+  | EFiber fib =>
+      let* _ := fiber_check fib in
+      let* _ := loss_coef_at fib f in
+      let* cd := chromatic_dispersion_with pi fib sh f in
+      Ok (mkC cd (fiber_latency fib) (fiber_pmd2 fib) 0)
+  | _ => elem_contrib pi e f
+  end.
+Definition propagate_path_with (pi : Q) (els : list element) (shs : list (option (res Q))) (f : Q) (a : acc) : res acc :=
+  let* cs := mapM (fun es => elem_contrib_with pi (fst es) (snd es) f) (combine els shs) in
+  Ok (accumulate cs a).
+
+(* ------------------------------------------------------------------------------------------------
    Raman on, method 'numerical': the explicit Euler scheme of
    calculate_unidirectional_stimulated_raman_scattering on the merged grid [(z_i, lumped_i)]:
      P_j(i) = P_j(i-1) * (1 + (-alpha_j + sum_k cr_jk P_k(i-1)) * (z_i - z_{i-1})) * lumped_{i-1}
